@@ -1,11 +1,11 @@
 SPECIFICATION Spec
 CONSTANTS
-  Classes = {"OwnBare", "OwnFullOther", "Contact"}
-  Wrappers = {"none", "sent", "received"}
+  Classes = {"OwnBare", "PreviousOwnBare", "Contact"}
+  Wrappers = {"sent", "received"}
   Inners = {"chatIn"}
   Gens = {"v1", "v2"}
-  JidCfgs = {"plain"}
-  Hows = {}
+  JidCfgs = {"plain", "mixed"}
+  Hows = {"setJid", "setUserDomain"}
   MaxHist = 4
 CONSTRAINT Bound
 ACTION_CONSTRAINT EmitBehaviour
